@@ -182,6 +182,22 @@ func Judge(k *run.K, domain string, a, b geom.Geometry) {
 }
 
 func runAll(c *run.Ctx) {
+	for i := 0; i < c.N(600, 10000); i++ {
+		c.Case("big", i, func(k *run.K) {
+			domain := []string{gen.DLarge, gen.DGP, gen.DSmall}[k.Rng.Intn(3)]
+			cfg := gen.NewCfg(k.Rng, domain)
+			cfg.Big = true
+			if domain == gen.DSmall {
+				cfg.Side = 12
+			}
+			g := &gen.G{R: k.Rng, Cfg: cfg}
+			a, b := g.Typed(gen.AllTypes[k.Rng.Intn(6)], 0), g.Typed(gen.AllTypes[k.Rng.Intn(6)], 0)
+			k.In("domain", domain)
+			k.In("a", shared.WKT(a))
+			k.In("b", shared.WKT(b))
+			Judge(k, domain, a, b)
+		})
+	}
 	for i := 0; i < c.N(4000, 60000); i++ {
 		c.Case("grid", i, func(k *run.K) {
 			domain := gen.DSmall
